@@ -169,14 +169,14 @@ Buckets ==
          UNION {UNION {{Bucket("rep", Ctx(dn, o), t1, dn[4]) : t1 \in TensorOps(Ctx(dn, o), dn[3])}
                        \cup {Bucket("repS", Ctx(dn, o), <<>>, {})} : o \in Ords(dn)} : dn \in DN}
     [] Mode = "alg" -> UNION {{Bucket("alg", c, A, B) : A \in OpCat(c), B \in OpCat(c)} : c \in Ctxs}
-    [] Mode = "act" -> UNION {{Bucket("act", c, A, 0) : A \in OpCat(c)} : c \in Ctxs}
-    [] Mode = "obs" -> UNION {{Bucket("obs", c, H, one) : H \in HamCat(c), one \in Ones(c)} : c \in Ctxs}
+    [] Mode = "act" -> UNION {{Bucket("act", c, A, st) : A \in OpCat(c), st \in StateCat(c)} : c \in Ctxs}
+    [] Mode = "obs" -> UNION {{Bucket("obs", c, <<H, one>>, st) : H \in HamCat(c), one \in Ones(c), st \in StateCat(c)} : c \in Ctxs}
 PointsOf(b) ==
   CASE b.k = "rep" -> RepValid(b.c, b.x, b.y)
     [] b.k = "repS" -> RepSpecial(b.c)
     [] b.k = "alg" -> {[m |-> "alg", c |-> b.c, A |-> b.x, B |-> b.y, g |-> g] : g \in Scalars(b.c)}
-    [] b.k = "act" -> {[m |-> "act", c |-> b.c, A |-> b.x, st |-> st] : st \in StateCat(b.c)}
-    [] b.k = "obs" -> {[m |-> "obs", c |-> b.c, st |-> st, H |-> b.x, one |-> b.y] : st \in StateCat(b.c)}
+    [] b.k = "act" -> {[m |-> "act", c |-> b.c, A |-> b.x, st |-> b.y]}
+    [] b.k = "obs" -> {[m |-> "obs", c |-> b.c, st |-> b.y, H |-> b.x[1], one |-> b.x[2]]}
 
 Init == pt = [m |-> "root"]
 Next ==
